@@ -399,6 +399,105 @@ def main():
                     if not (np.abs(got_M - want_M).max() <= 1e-9 * (1 + np.abs(want_M).max())):
                         res.fail(f"beam moment timo={timo} dim={bdim} form={form}", f"moment of nodal forces and couples about the origin = {got_M.tolist()} but the moment of the density = {want_M.tolist()}", ident)
 
+    # ---------------- loads added after the mesh has moved, on a simulation that integrated loads before ----------------
+    # [load on an edge / face, mesh.Translate or Rotate, a load given as a function of position on the same edge / face]: the density is
+    # evaluated where the Gauss points are NOW.
+    for et in (["TRI3", "QUAD8", "HEXA8"] if not thorough else ["TRI3", "TRI6", "QUAD4", "QUAD8", "TETRA4", "HEXA8", "PRISM6"]):
+        dimv = M.dim_of(et)
+        for mover in ("translate", "rotate quarter turn"):
+            meshv = M.mesh_2d(et, 2.0, 1.0, 0.5) if dimv == 2 else M.mesh_3d(et, 2.0, 1.0, 1.5, 0.75, 2)
+            thv = 0.5 if dimv == 2 else 1.0
+            simv = Simulations.Elastic(meshv, Models.Elastic.Isotropic(dimv, E=10.0, v=0.25, **({"thickness": thv} if dimv == 2 else {})))
+            selv = meshv.Nodes_Conditions(lambda x, y, z: x == 2.0)              # the edge / face x = 2 (length 1, or area 1 x 1.5)
+            identV = dict(elemType=et, ops=["add_surfLoad(face x = 2, [1.0], ['x'])", mover, "add_surfLoad(same nodes, [lambda x, y, z: x + 2 y], ['y'])"], thickness=thv)
+            res.case(("load after a move", et, mover))
+            try:
+                simv.add_surfLoad(selv, [1.0], ["x"])
+                f0 = np.asarray(simv.Bc_vector_Neumann()).reshape(-1, dimv).sum(axis=0).copy()
+                simv.Bc_Init()
+                if mover == "translate":
+                    meshv.Translate(0.0, 5.0, 0.0)
+                    # the face is now x = 2, y in [5, 6]: integral of x + 2 y = (2 + 11) * measure
+                    wantv = 13.0 * (1.0 if dimv == 2 else 1.5) * thv
+                else:
+                    meshv.Rotate(90.0, (0.0, 0.0, 0.0), (0.0, 0.0, 1.0))
+                    # (x, y) -> (-y, x): the face is now y = 2, x in [-1, 0]: integral of x + 2 y = (-1/2 + 4) * measure
+                    wantv = 3.5 * (1.0 if dimv == 2 else 1.5) * thv
+                simv.add_surfLoad(selv, [lambda x, y, z: x + 2 * y], ["y"])
+                fv = np.asarray(simv.Bc_vector_Neumann()).reshape(-1, dimv).sum(axis=0)
+            except Exception as ex:  # noqa: BLE001
+                res.fail(f"load after a move raises elem={et}", f"{type(ex).__name__}: {str(ex)[:200]}", identV)
+                continue
+            if not (abs(f0[0] - (1.0 if dimv == 2 else 1.5) * thv) <= 1e-9):
+                res.fail(f"surface load resultant elem={et}", f"unit load on the face x = 2: resultant {f0[0]!r}", identV)
+            if not (abs(fv[1] - wantv) <= 1e-9 * (1 + abs(wantv))):
+                res.fail(f"load given as a function of position after the mesh moved ({mover}) elem={et}",
+                         f"resultant {fv[1]!r} of the density x + 2 y on the moved face, expected {wantv!r} (the density evaluated at the positions before the move gives another value)", identV)
+
+    # ---------------- merged meshes: a load on the common boundary of the two parts ----------------
+    from EasyFEA.FEM import Mesh as _Mesh
+    for et in (["TRI3", "QUAD8", "HEXA8"] if not thorough else ["TRI3", "TRI6", "QUAD4", "QUAD8", "TETRA4", "HEXA8", "PRISM6"]):
+        dimm = M.dim_of(et)
+        identM = dict(elemType=et, mesh="Mesh.Merge of the block [0, 1] x [0, 1] (x [0, 1.5]) and its translate by (1, 0, 0)", load="add_surfLoad(nodes on x = 1, [0.5 + y], ['x'])")
+        res.case(("merged-mesh interface load", et))
+        try:
+            mA = M.mesh_2d(et, 1.0, 1.0, 0.5) if dimm == 2 else M.mesh_3d(et, 1.0, 1.0, 1.5, 0.75, 2)
+            mB = mA.copy()
+            mB.Translate(1.0, 0.0, 0.0)
+            mm = _Mesh.Merge([mA, mB])
+            simm = Simulations.Elastic(mm, Models.Elastic.Isotropic(dimm, E=10.0, v=0.25))
+            selm = mm.Nodes_Conditions(lambda x, y, z: np.isclose(x, 1.0))
+            simm.add_surfLoad(selm, [lambda x, y, z: 0.5 + y], ["x"])
+            Fm = np.asarray(simm.Bc_vector_Neumann()).reshape(-1, dimm)
+            gotm = Fm[:, 0].sum()
+            gotMz = -(mm.coord[:, 1] * Fm[:, 0]).sum()
+            hz = 1.0 if dimm == 2 else 1.5
+            wantm, wantMz = 1.0 * hz, -(0.25 + 1.0 / 3.0) * hz
+            used = np.unique(np.concatenate([g.connect.ravel() for g in mm.Get_list_groupElem(dimm)]))
+        except Exception as ex:  # noqa: BLE001
+            res.fail(f"merged mesh: interface load raises elem={et}", f"{type(ex).__name__}: {str(ex)[:200]}", identM)
+            continue
+        if not (abs(gotm - wantm) <= 1e-9) or not (abs(gotMz - wantMz) <= 1e-9):
+            res.fail(f"merged mesh: load on the common boundary elem={et}", f"resultant {gotm!r} (expected {wantm!r}), moment about z {gotMz!r} (expected {wantMz!r}): "
+                     f"the interface carries {sum(int(g.Ne) for g in mm.Get_list_groupElem(dimm - 1))} boundary elements in all groups of dimension {dimm - 1}", dict(identM, Nn=int(mm.Nn), used=int(used.size)))
+
+    # ---------------- curved boundaries: the loaded region is the curve the boundary elements interpolate, not its chords ----------------
+    # a disc meshed with 6- / 8- / 10-node elements: the boundary is a ring of SEG3 / SEG4 elements whose inner nodes lie on the circle.
+    # The resultant of a unit traction is the length of that interpolated curve (computed here from the group's own shape derivative
+    # tables, proved in C06, with a 10-point rule on |dx/dr|), its first moments likewise; the area of the same mesh follows the curve.
+    from EasyFEA.Geoms import Circle as _Circle
+    for et in (["TRI6", "QUAD8", "TRI10"] if thorough else ["TRI6", "QUAD8"]):
+        identC = dict(elemType=et, region="circle of diameter 2 centred at (0.5, -0.25), mesh size 0.6", load="add_surfLoad(boundary nodes, [1.0], ['x']) and [x] on 'y'", thickness=0.5)
+        res.case(("curved-boundary", et))
+        try:
+            circ = _Circle(Point(0.5, -0.25), 2.0, 0.6)
+            meshC = Mesher().Mesh_2D(circ, [], ElemType(et))
+            gB = meshC.Get_list_groupElem(1)[0]
+            XB = meshC.coord[gB.connect]
+            xi, wi = np.polynomial.legendre.leggauss(10)
+            dNB = np.array([[f(x_) for f in np.asarray(gB._dN()).ravel()] for x_ in xi])
+            NB = np.array([[f(x_) for f in np.asarray(gB._N()).ravel()] for x_ in xi])
+            tB = np.einsum("pn,enj->epj", dNB, XB)
+            xB = np.einsum("pn,enj->epj", NB, XB)
+            ds = np.linalg.norm(tB, axis=2) * wi
+            Lc, Mx = float(ds.sum()), float((ds * xB[..., 0]).sum())
+            chord = float(np.linalg.norm(XB[:, 1] - XB[:, 0], axis=1).sum())
+            simC = Simulations.Elastic(meshC, Models.Elastic.Isotropic(2, thickness=0.5))
+            nodesC = meshC.Nodes_Circle(circ)
+            simC.add_surfLoad(nodesC, [1.0], ["x"])
+            simC.add_surfLoad(nodesC, [lambda x, y, z: x], ["y"])
+            fC = np.asarray(simC.Bc_vector_Neumann()).reshape(-1, 2).sum(axis=0)
+        except Exception as ex:  # noqa: BLE001
+            res.fail(f"curved boundary raises elem={et}", f"{type(ex).__name__}: {str(ex)[:200]}", identC)
+            continue
+        wantC = np.array([0.5 * Lc, 0.5 * Mx])
+        if not (Lc - chord > 1e-3):
+            res.disagree("vacuous", dict(identC, note="the boundary elements are not curved"))
+        if not (np.abs(fC - wantC).max() <= 2e-6 * abs(wantC[0])):
+            res.fail(f"curved boundary: resultant of a distributed load elem={et}",
+                     f"unit traction (thickness 0.5) on the boundary of a disc meshed with {et}: resultant {fC[0]!r}, thickness x length of the interpolated boundary = {wantC[0]!r} "
+                     f"(thickness x sum of the chords = {0.5 * chord!r}); traction x on 'y': {fC[1]!r}, expected {wantC[1]!r}", dict(identC, boundary=gB.elemType.name))
+
     # ---------------- intensities owned by the caller: one array / function object given for several components, and given again in a second load case ----------------
     # (`f = ...; simu.add_neumann(nodes, [f, f], ["x", "y"])`, then the same f in the next load case.) Every component and every load case
     # must receive the forces of the intensity the caller wrote down: for a concentrated load value_i / N on selected node i, for a distributed
